@@ -326,6 +326,11 @@ Definition iv (s : store) (F : nat) (st : state) (m : nat) : option Z :=
 Definition bv (s : store) (F : nat) (st : state) (m : nat) : option bool :=
   match bool_value s F st m with Ok b => Some b | _ => None end.
 
+(* one step of a history as the model sees it: a leaf (value slot, register content, formula result)
+   takes a new value; everything else stays *)
+Definition upd (st : state) (a b : nat) (v : outcome Z) : state :=
+  fun x y => if (Nat.eqb x a && Nat.eqb y b)%bool then v else st x y.
+
 (* ---------------------------------------------------------------- running *)
 Definition show_b (x : outcome bool) : Z :=
   match x with
